@@ -1,6 +1,6 @@
 (* C18Proofs.v — a successful run reports post's action, normalised; the boolean predicate
    spec_C18 holds of every observation the model produces. *)
-From Flyt Require Import Base Script FlowTable Engine EngineCorr EngineFacts SpecC18.
+From Flyt Require Import Base Script FlowTable Engine EngineCorr EngineFacts SpecC18 BatchConc BatchConcFacts.
 
 Section P.
 Variable o : oracle.
@@ -91,9 +91,6 @@ Qed.
 End P.
 
 (* ------------------------------------------------------------ the boolean spec on the model *)
-Lemma conc_unused_ext : forall c k st n s items s' rs,
-    conc_unused c k st n s items = (s', rs) -> ext s s'.
-Proof. unfold conc_unused. intros. inv H. apply ext_refl. Qed.
 
 Lemma skipn_app_exact {A} (l r : list A) : skipn (length l) (l ++ r) = r.
 Proof. induction l; cbn; auto. Qed.
@@ -132,7 +129,7 @@ Proof.
     rewrite Ha. unfold norm_act. apply Nat.eqb_refl.
   - inv H. match goal with H : run_batch _ _ _ _ _ _ _ = _ |- _ =>
       apply run_batch_done_post in H;
-        [|apply conc_unused_ext|destruct (u_post c); auto; discriminate] end.
+        [|apply (gated_exec_ext _ _)|destruct (u_post c); auto; discriminate] end.
     destruct H1 as [evs [ev [a0 [L [Hev [Hr Ha]]]]]].
     rewrite L, skipn_app_exact, (last_post_act_snoc _ _ _ _ Hev Hr).
     rewrite Ha. unfold norm_act. apply Nat.eqb_refl.
